@@ -157,7 +157,6 @@ class TransposeIndexRule(AbstractBinaryRule):
         if right.unique_indices:
             raise NoReduction
 
-        dtype = right.out_promoted_dtype
         shapes = {leaf.shape for leaf in jax.tree.leaves(right.in_structure())}
         if len(shapes) > 1:
             raise NoReduction
@@ -171,7 +170,7 @@ class TransposeIndexRule(AbstractBinaryRule):
         # negative indices alias the non-negative ones: count them together
         index = jnp.where(index < 0, index + size_max, index)
         unique_indices, counts = jnp.unique(index, return_counts=True, size=size_max, fill_value=-1)
-        coverage = jnp.zeros(size_max, dtype=dtype)
+        coverage = jnp.zeros(size_max, dtype=counts.dtype)
         coverage = coverage.at[unique_indices].add(
             counts, indices_are_sorted=True, unique_indices=True
         )
